@@ -107,7 +107,13 @@ pub fn property(id: &str) -> Option<PropertySpec> {
             id: "C13",
             rule: pos::C13_RULE,
             assumptions: vec![ORACLE, SETUP, CAP, "reference SAN writer in harness/src/oracle/notation.rs (FIDE C.10: file, then rank, then square)"],
-            checks: vec![Box::new(pos::C13Positions)],
+            checks: vec![
+                Box::new(pos::C13Positions),
+                Box::new(game::Session {
+                    name: "C13/session",
+                    listings_only: true,
+                }),
+            ],
         },
         "C14" => PropertySpec {
             id: "C14",
